@@ -21,6 +21,13 @@ var unusedKindDocs = []string{
 	"apiVersion: autoscaling/v2\nkind: HorizontalPodAutoscaler\nmetadata: {name: h}\nspec: {maxReplicas: 3, scaleTargetRef: {kind: Deployment, name: a, apiVersion: apps/v1}}\n",
 	"apiVersion: example.com/v1\nkind: Widget\nmetadata: {name: w}\nspec: {podSelector: 5}\n",
 	"apiVersion: rbac.authorization.k8s.io/v1\nkind: ClusterRole\nmetadata: {name: cr}\nrules: []\n",
+	// kinds are case-sensitive: these are NOT a Deployment, a NetworkPolicy, a Pod or a Namespace, however well their
+	// bodies would convert - other kinds like any other
+	"apiVersion: apps/v1\nkind: deployment\nmetadata: {name: lowercase, namespace: ns1}\nspec:\n  replicas: 1\n  selector: {matchLabels: {app: x1}}\n  template: {metadata: {labels: {app: x1}}, spec: {containers: [{name: c, image: x, ports: [{containerPort: 80}]}]}}\n",
+	"apiVersion: networking.k8s.io/v1\nkind: networkpolicy\nmetadata: {name: denyall, namespace: ns1}\nspec:\n  podSelector: {}\n  policyTypes: [Ingress, Egress]\n",
+	"apiVersion: networking.k8s.io/v1\nkind: NETWORKPOLICY\nmetadata: {name: denyall2, namespace: ns2}\nspec:\n  podSelector: {}\n  policyTypes: [Ingress]\n",
+	"apiVersion: v1\nkind: POD\nmetadata: {name: shouting, namespace: ns1, labels: {app: x1}}\nspec:\n  containers: [{name: c, image: x}]\nstatus:\n  hostIP: 192.168.49.2\n  podIPs: [{ip: 10.244.0.9}]\n",
+	"apiVersion: v1\nkind: namespace\nmetadata: {name: ns1, labels: {env: x1, tier: x1}}\n",
 }
 
 // resources that decode but fail typed conversion; each carries the name a severe entry must mention
